@@ -32,6 +32,7 @@ type ConcCase struct {
 	Reps   int      `json:"reps"`
 	N, W   int      // file shape
 	Yield  bool     `json:"yield"`
+	MissZ  bool     `json:"missz"` // dir: the child shard holding names 5..8 is unavailable
 }
 
 type evbuf struct{ evs []M }
@@ -73,10 +74,26 @@ func runConcDir(cc *ConcCase, tr *Tr) error {
 	for _, n := range u {
 		digits = append(digits, digitsOf(n, lg))
 	}
+	// the first-level shard on the path of name 5 (it holds names 5..8)
+	missClass := 0
+	missing := []int{}
+	if cc.MissZ {
+		d5 := digits[4][0]
+		for _, sl := range dw.Shards[0].Slots {
+			if sl.B == d5 && sl.T == "shard" {
+				missClass = sl.Link
+			}
+		}
+		if missClass == 0 {
+			return fmt.Errorf("conc: no child shard for name 5")
+		}
+		missing = []int{missClass}
+	}
 	for rep := 0; rep < cc.Reps; rep++ {
+		st.missing = map[string]bool{}
 		tr.Emit(M{"ev": "reset", "case": caseString(cc)})
 		tr.Emit(M{"ev": "dir", "kind": dw.Kind, "F": dw.Fanout, "S": dw.Shards, "plain": []WPlain{}, "expect": expect,
-			"digits": digits, "missing": []int{}, "entryC": entryC, "mode": "conc", "size": size, "builder": "sharded",
+			"digits": digits, "missing": missing, "entryC": entryC, "mode": "conc", "size": size, "builder": "sharded",
 			"rootC": dw.classOf(root), "nuniv": len(u)})
 		ls := st.LinkSystem() // no load logging: the read path must not synchronise the goroutines
 		rootNode, err := loadNode(ls, root)
@@ -88,6 +105,9 @@ func runConcDir(cc *ConcCase, tr *Tr) error {
 			return err
 		}
 		tr.Emit(M{"ev": "opennode", "how": "reify", "e": "nil", "kind": node.Kind().String(), "loads": []int{}, "failed": []int{}})
+		if cc.MissZ {
+			st.missing[key(dw.cids[missClass])] = true
+		}
 		switch cc.Warm {
 		case "halfwarm":
 			node.LookupByString(u[2])
@@ -139,6 +159,14 @@ func concDirOp(node ipld.Node, op string, u []string, dw *DirWalk, eb *evbuf) {
 	case "lookupMiss":
 		lookup(6)
 		lookup(1)
+	case "lookupZ5":
+		lookup(5)
+	case "lookupZ6":
+		lookup(6)
+	case "lookupZ7":
+		lookup(7)
+	case "lookupZ8":
+		lookup(8)
 	case "length":
 		var n int64
 		res := "ok"
@@ -268,6 +296,17 @@ func concFileOp(node ipld.Node, r int, op string, content []byte, eb *evbuf) {
 		}
 		eb.add(M{"ev": "seek", "r": r, "off": off, "wh": wh, "ret": ret, "e": errClass(err), "loads": []int{}, "failed": []int{}})
 	}
+	if op == "seekmany" {
+		// many repositioned reads at pseudo-random places (per-goroutine sequence)
+		x := uint32(r*2654435761 + 12345)
+		for i := 0; i < 40; i++ {
+			x = x*1664525 + 1013904223
+			off := int64(x>>8) % int64(len(content))
+			seek(off, io.SeekStart)
+			read(1 + int(x>>4)%7)
+		}
+		return
+	}
 	if op == "seekread" {
 		seek(-3, io.SeekEnd)
 		read(5)
@@ -354,11 +393,23 @@ func init() {
 				return err
 			}
 		}
+		// a child shard is unavailable and several goroutines reach it at once: every one of them must get the load error
+		for _, warm := range []string{"cold", "halfwarm"} {
+			if *what == "file" {
+				break
+			}
+			cc := &ConcCase{Fam: "conc", ID: fmt.Sprintf("conc-dir-missz-%s", warm), What: "dir", Fanout: 8, Warm: warm,
+				Ops: []string{"lookupZ5", "lookupZ6", "lookupZ7", "lookupZ8", "lookupX", "iterate", "lookupZ5", "lookupZ6"}, Reps: *reps * 2, Yield: true, MissZ: true}
+			if err := runConcDir(cc, tr); err != nil {
+				return err
+			}
+		}
 		// files: separate readers and AsBytes on one shared multi-block node
 		if *what != "file" {
 			return nil
 		}
-		for _, ops := range [][]string{{"read-1", "read-2"}, {"read-3", "asbytes"}, {"read-100", "seekread", "read-4"}, {"asbytes", "asbytes", "seekread", "read-2"}} {
+		for _, ops := range [][]string{{"read-1", "read-2"}, {"read-3", "asbytes"}, {"read-100", "seekread", "read-4"}, {"asbytes", "asbytes", "seekread", "read-2"},
+			{"seekmany", "seekmany", "seekmany", "seekmany"}} {
 			for _, nw := range [][2]int{{5, 2}, {9, 3}} {
 				cc := &ConcCase{Fam: "conc", ID: fmt.Sprintf("conc-file-%d-%d-%v", nw[0], nw[1], ops), What: "file", N: nw[0], W: nw[1], Ops: ops, Reps: *reps}
 				if err := runConcFile(cc, tr); err != nil {
